@@ -241,12 +241,28 @@ pub struct Local {
     /// keys of `known` entries of known_findings.json for this property
     pub known_keys: Vec<String>,
     pub known_hits: BTreeMap<String, u64>,
+    /// family whose cases are distinct by construction: states are counted, not hashed
+    pub distinct: bool,
+    pub nontrivial_direct: u64,
+    /// set by families whose inputs are huge shared buffers: the case identity to use instead of
+    /// hashing the whole input
+    pub input_hash_override: Option<u64>,
 }
 impl Local {
+    #[inline]
+    pub fn input_hash(&self, input: &[u8]) -> u64 {
+        match self.input_hash_override {
+            Some(h) => h,
+            None => fnv64(input),
+        }
+    }
     pub fn new(family: &str, want_samples: usize) -> Self {
         Local {
             known_keys: Vec::new(),
             known_hits: BTreeMap::new(),
+            distinct: false,
+            nontrivial_direct: 0,
+            input_hash_override: None,
             evals: 0,
             transitions: 0,
             traces: 0,
@@ -264,7 +280,11 @@ impl Local {
     /// one distinct case (state); `nontrivial` per the property's stated rule
     #[inline]
     pub fn state(&mut self, hash: u64, nontrivial: bool) {
-        self.hashes.push((hash, nontrivial));
+        if self.distinct {
+            self.nontrivial_direct += nontrivial as u64;
+        } else {
+            self.hashes.push((hash, nontrivial));
+        }
     }
     #[inline]
     pub fn outcome(&mut self, name: &str) {
@@ -473,7 +493,8 @@ impl Ctx {
         st.transitions += loc.transitions;
         st.traces += loc.traces;
         st.states += ns;
-        st.nontrivial += nn;
+        st.nontrivial += nn + loc.nontrivial_direct;
+        loc.nontrivial_direct = 0;
         st.violations += loc.viol_count;
         for (k, v) in loc.outcomes.iter() {
             *st.outcomes.entry(k.clone()).or_insert(0) += v;
@@ -541,6 +562,7 @@ impl Ctx {
             for _ in 0..nthreads {
                 s.spawn(|| {
                     let mut loc = self.new_local(&fam.name, 1);
+                    loc.distinct = fam.distinct_by_construction;
                     loop {
                         let lo = next.fetch_add(chunk, Ordering::Relaxed);
                         if lo >= fam.size || stop.load(Ordering::Relaxed) {
